@@ -126,6 +126,49 @@ func c06IndexAssigns(s *source, e *emitter, rel, goName, lean string) {
 	e.stringList(lean, "assignments to map / slice elements in `"+goName+"` in "+rel, out)
 }
 
+// c06Head emits the source of the statements of a function that come before the first statement starting
+// with `untilPrefix` (how the state the translated tail works on is initialised).
+func c06Head(s *source, e *emitter, rel, goName, lean, untilPrefix string) {
+	fd := s.findFunc(rel, goName)
+	if fd == nil {
+		e.errors = append(e.errors, fmt.Sprintf("function %s not found in %s", goName, rel))
+		e.stringList(lean, "MISSING: "+goName, []string{"MISSING"})
+		return
+	}
+	var out []string
+	found := false
+	for _, st := range fd.Body.List {
+		if strings.HasPrefix(s.src(st), untilPrefix) {
+			found = true
+			break
+		}
+		out = append(out, s.src(st))
+	}
+	if !found {
+		e.errors = append(e.errors, fmt.Sprintf("%s: statement %q not found", goName, untilPrefix))
+		out = []string{"MISSING"}
+	}
+	e.stringList(lean, "statements of `"+goName+"` in "+rel+" before `"+untilPrefix+"`", out)
+}
+
+// c06Assigns emits the source of every assignment in a function (function literals included).
+func c06Assigns(s *source, e *emitter, rel, goName, lean string) {
+	fd := s.findFunc(rel, goName)
+	if fd == nil {
+		e.errors = append(e.errors, fmt.Sprintf("function %s not found in %s", goName, rel))
+		e.stringList(lean, "MISSING: "+goName, []string{"MISSING"})
+		return
+	}
+	var out []string
+	ast.Inspect(fd.Body, func(n ast.Node) bool {
+		if as, ok := n.(*ast.AssignStmt); ok {
+			out = append(out, s.src(as))
+		}
+		return true
+	})
+	e.stringList(lean, "assignments in `"+goName+"` in "+rel, out)
+}
+
 func init() {
 	register("C06", func(s *source, e *emitter) {
 		const node = "core/stores/cache/cachenode.go"
@@ -140,6 +183,14 @@ func init() {
 		e.constDef(s, sqlc, "cacheSafeGapBetweenIndexAndPrimary", "safeGap")
 		c06SwitchTable(s, e, cleaner, "nextDelay", "nextDelayTable")
 		e.shapeDef(s, opt, "newOptions", "newOptionsShape")
+		// round 3: newOptions itself — the zero-initialised Options, the loop applying the given options, and the
+		// two sanity checks translated into an Int function (comparison operators, constants, which field gets
+		// which default); the two option constructors (which field an option assigns)
+		tr := &translator{registry: map[string]*transFunc{}, consts: map[string]string{}}
+		e.translated(tr, s, opt, "newOptions", "newOptionsTail", true, "if o.Expiry")
+		c06Head(s, e, opt, "newOptions", "newOptionsHead", "if o.Expiry")
+		c06Assigns(s, e, opt, "WithExpiry", "withExpiryAssigns")
+		c06Assigns(s, e, opt, "WithNotFoundExpiry", "withNotFoundExpiryAssigns")
 		e.shapeDef(s, node, "cacheNode.doGetCache", "doGetCacheShape")
 		e.shapeDef(s, node, "cacheNode.doTake", "doTakeShape")
 		e.shapeDef(s, node, "cacheNode.processCache", "processCacheShape")
